@@ -294,14 +294,23 @@ LAST:
 	if e.NotOperator == "!" {
 
 		if math != reflect.ValueOf(nil) {
+			if math.Kind() != reflect.Bool {
+				return reflect.ValueOf(nil), errors.New(fmt.Sprintf("line %d, column %d, code: %s, ! can't be used on %s", e.LineNum, e.Column, e.Code, math.Kind().String()))
+			}
 			return reflect.ValueOf(!math.Bool()), nil
 		}
 
 		if atom != reflect.ValueOf(nil) {
+			if atom.Kind() != reflect.Bool {
+				return reflect.ValueOf(nil), errors.New(fmt.Sprintf("line %d, column %d, code: %s, ! can't be used on %s", e.LineNum, e.Column, e.Code, atom.Kind().String()))
+			}
 			return reflect.ValueOf(!atom.Bool()), nil
 		}
 
 		if b != reflect.ValueOf(nil) {
+			if b.Kind() != reflect.Bool {
+				return reflect.ValueOf(nil), errors.New(fmt.Sprintf("line %d, column %d, code: %s, ! can't be used on %s", e.LineNum, e.Column, e.Code, b.Kind().String()))
+			}
 			return reflect.ValueOf(!b.Bool()), nil
 		}
 	} else {
